@@ -28,7 +28,14 @@ CLAIMS = {
              "pairs x subsample depths x scales per axis; each case is executed on both axes of the real function in "
              "an ASan build (an out-of-bounds write aborts the call and the unanswered call is rejected), the whole "
              "block is streamed to TLC row by row, set_filter must return TRUE and OP_SRC composites of constant "
-             "images through the filter (fast path and general path, three repeat modes) must return the constant.",
+             "images through the filter (fast path and general path, three repeat modes) must return the constant. "
+             "In addition a WIDE SCAN WITH SELECTION creates millions of tables (IMPULSE reconstruction x every sampling "
+             "kernel at EVERY 16.16 scale in (0, 2.0] x subsample bits 0..5; the other 49+7 pairs on a seed-rotated "
+             "residue class of the scales, a ladder up to 64.0 and depths 6..8): a structural pre-screen in the driver "
+             "selects every table that is unusual in any way (NULL, length or header not as announced, a phase not summing "
+             "to 65536, a coefficient >= 16.0) and a deterministic control sample; only those are shown to TLC, which "
+             "judges them exactly like all other tables. A table the pre-screen does not select is NOT judged "
+             "(evidence: scan_tables_created / selected / control / not_judged).",
         ref="5 C18"),
 }
 
@@ -169,7 +176,7 @@ def scan_jobs(tier, seed):
     """W lines (see harness/drv_filter.c) of the wide scan with selection, with a cost estimate each.
        dense : IMPULSE reconstruction x every sampling kernel, EVERY scale 1..131072 (0 < s <= 2.0), bits 0..5 -- the
                region where a phase has one to three taps and rounded taps can cancel
-       sweep : the 49 pairs without IMPULSE over the same scale range with step STEP (thorough: 1), the offset
+       sweep : the 49 pairs without IMPULSE over the same scale range with step 37 (thorough: 3), the offset
                rotating with the seed; X x IMPULSE (independent of the scale) once per depth 0..8;
                every pair on a log-spaced ladder above 2.0 and at depths 6..8"""
     quick = tier == "quick"
@@ -186,7 +193,7 @@ def scan_jobs(tier, seed):
         for b in range(6):
             for half in range(2):            # two halves per (kernel, depth) for balance
                 add(0, sk, 1 + half * 65536, 65536 + half * 65536, 1, 0, b, 5000)
-    step = 37 if quick else 1
+    step = 37 if quick else 3
     for rk in range(1, 8):
         for b in range(9):
             add(rk, 0, 65536, 65536, 1, 0, b, 1)
@@ -196,8 +203,8 @@ def scan_jobs(tier, seed):
                 if quick:
                     add(rk, sk, 1, 131072, step, off, b, 500)
                 else:
-                    for q in range(4):
-                        add(rk, sk, 1 + q * 32768, 32768 + q * 32768, 1, 0, b, 5000)
+                    for q in range(4):      # four quarters per (pair, depth) for balance
+                        add(rk, sk, 1 + q * 32768, 32768 + q * 32768, step, off, b, 5000)
     # log-spaced ladder above 2.0 (up to 64.0) and deep subsampling, all 64 pairs
     nl = 12 if quick else 60
     for i in range(nl):
@@ -397,7 +404,7 @@ def run(prop, args):
         traces = list(ex.map(lambda ib: run_driver(exe, ib[1], wd, "b%d" % ib[0]),
                              [(i, b) for i, b in enumerate(batches) if b]))
     # 3b. wide scan with selection (only selected + control tables reach TLC)
-    traces += scan_stage(chk, exe, wd, args, nb)
+    traces += scan_stage(chk, exe, wd, args, nb if quick else 14)
     for t in traces:
         count_events(chk, t)
 
@@ -422,6 +429,10 @@ def run(prop, args):
         "rendering obligation: |out - c| <= (c*ceil(w*h/2) + 32768) div 65536 per channel (0, i.e. exact, for w*h <= 256); "
         "narrow (8-bit) pipeline, repeat NORMAL/PAD/REFLECT, 8-bit-per-channel source formats",
         "out-of-bounds writes are observed by AddressSanitizer (heap redzones), not by the specification",
+        "wide scan: the driver's structural pre-screen only SELECTS tables for TLC; the verdict on every selected or "
+        "control table is TLC's, tables not selected are not judged. Dense part (every scale 1..131072, bits 0..5, "
+        "IMPULSE reconstruction x 8 sampling kernels) is complete in both tiers; the 49 pairs without IMPULSE are scanned "
+        "on 1 of %d residue classes of the scale per run (offset rotates with the seed)" % (37 if quick else 3),
         "TLC/SANY and the CommunityModules Json/IOUtils readers are trusted"]
     rc = chk.finish()
     if not args.keep:
